@@ -165,6 +165,67 @@ def rule_finally(rep: Report, repo: Repo, cu: CUnit) -> None:
                           expected='last_run_op_count, last_run_paused_seconds and *ops_out assigned after the last change')
 
 
+_CALLBACK_CALLS = ('PyObject_CallFunctionObjArgs', 'PyObject_CallNoArgs', 'PyObject_CallOneArg', 'PyObject_CallObject', 'PyObject_Call')
+
+
+def _failure_vars(cu: CUnit, fname: str) -> Tuple[Set[str], Set[str]]:
+    """(locals holding the result of a Python callback: NULL means failure, locals holding a PyObject_IsTrue status: < 0 means failure)"""
+    _cache = cu.__dict__.setdefault('_c18_fail_vars', {})              # per translation unit, never across variants
+    key = fname
+    if key not in _cache:
+        objs: Set[str] = set()
+        stats: Set[str] = set()
+        for n in walk(cu.body(fname)):
+            tgt, val = None, None
+            if is_assign(n):
+                tgt, val = cu.src_of(n['inner'][0]), n['inner'][1]
+            elif n.get('kind') == 'VarDecl' and n.get('inner'):
+                tgt, val = n['name'], n['inner'][-1]
+            if tgt is None or val is None:
+                continue
+            cs = [callee(c) for c in walk(val) if c.get('kind') == 'CallExpr']
+            if any(c in _CALLBACK_CALLS for c in cs):
+                objs.add(tgt)
+            elif 'PyObject_IsTrue' in cs:
+                stats.add(tgt)
+        _cache[key] = (objs, stats)
+    return _cache[key]
+
+
+def _failure_side(cu: CUnit, fname: str, test: str) -> Optional[str]:
+    """which branch of this loop test is the failure branch of a device callback / signal check ('T' / 'F'), None: not such a test.
+    Spellings of `v is NULL`, `status < 0` and `PyErr_CheckSignals() failed` in either polarity are recognised."""
+    objs, stats = _failure_vars(cu, fname)
+    t = test.replace(' ', '')
+    def wrapped(x: str) -> bool:
+        if not (x.startswith('(') and x.endswith(')')):
+            return False
+        depth = 0
+        for k, ch in enumerate(x):
+            depth += ch == '('
+            depth -= ch == ')'
+            if depth == 0 and k < len(x) - 1:
+                return False
+        return True
+    while wrapped(t):
+        t = t[1:-1]
+    for v in objs:
+        if t in (f'!{v}', f'{v}==NULL', f'NULL=={v}', f'{v}==0', f'!({v})'):
+            return 'T'
+        if t in (v, f'{v}!=NULL', f'NULL!={v}', f'{v}!=0'):
+            return 'F'
+    for core in list(stats) + ['PyErr_CheckSignals()']:
+        if t in (f'{core}<0', f'0>{core}', f'{core}==-1', f'{core}<=-1', f'-1=={core}'):
+            return 'T'
+        if t in (f'{core}>=0', f'0<={core}', f'{core}!=-1', f'{core}>-1'):
+            return 'F'
+    if t in ('PyErr_CheckSignals()!=0', 'PyErr_CheckSignals()', '0!=PyErr_CheckSignals()'):
+        return 'T'
+    if t in ('PyErr_CheckSignals()==0', '!PyErr_CheckSignals()', '0==PyErr_CheckSignals()'):
+        return 'F'
+    return None
+
+
 def rule_cfail(rep: Report, cu: CUnit, repo: Optional[Repo] = None) -> None:
     repo = repo or Repo()
     rep.rule('C18.CFAIL', 'a failed device callback (NULL result, IsTrue < 0) leaves the loop without executing any later '
@@ -179,10 +240,11 @@ def rule_cfail(rep: Report, cu: CUnit, repo: Optional[Repo] = None) -> None:
                 if node.kind != 'cond' or not isinstance(node.ast, dict):
                     continue
                 txt = cu.src_of(node.ast)
-                if txt not in ('!result', 'bit_value < 0', 'PyErr_CheckSignals() < 0'):
+                side = _failure_side(cu, fname, txt)
+                if side is None:
                     continue
                 n_sites += 1
-                start = [m for m, lab in g.succ[node.id] if lab == 'T'][0]
+                start = [m for m, lab in g.succ[node.id] if lab == side][0]
                 seen = {start}
                 work = [start]
                 later: List[str] = []
@@ -223,9 +285,14 @@ def rule_cfail(rep: Report, cu: CUnit, repo: Optional[Repo] = None) -> None:
                     continue
                 # the failure test that follows the write_bit call
                 nxt = [m for m, _ in g.succ[node.id]]
-                if not nxt or g.nodes[nxt[0]].kind != 'cond' or cu.src_of(g.nodes[nxt[0]].ast) != '!result':
-                    raise AnalysisError(f'{fname}: the write_bit call is not followed by a `!result` test')
-                start = [m for m, lab in g.succ[nxt[0]] if lab == 'T'][0]
+                hops = 0
+                while nxt and g.nodes[nxt[0]].kind == 'stmt' and not L.events(g.nodes[nxt[0]]) and len(g.succ[nxt[0]]) == 1 and hops < 3:
+                    nxt = [m for m, _ in g.succ[nxt[0]]]
+                    hops += 1
+                side = _failure_side(cu, fname, cu.src_of(g.nodes[nxt[0]].ast)) if nxt and g.nodes[nxt[0]].kind == 'cond' else None
+                if side is None:
+                    raise AnalysisError(f'{fname}: the write_bit call is not followed by a NULL test of its result')
+                start = [m for m, lab in g.succ[nxt[0]] if lab == side][0]
                 seen = {start}
                 work = [start]
                 hit = None
@@ -425,6 +492,7 @@ def rule_kept_ring(rep: Report, cu: CUnit, repo: Repo) -> None:
 def check(rep: Report, repo: Optional[Repo] = None) -> None:
     repo = repo or Repo()
     cu = CUnit(repo)
+    cu.inline_void_helpers('Memory_run')        # an extracted void helper of the entry point reads like the code it was extracted from
     rep.units = dict(python_functions=['run', '_run_fast', '_run_native', '_run_featured'], c_functions=len(cu.funcs),
                      c_loops=list(M.ROLES_C))
     rule_classify(rep, repo)
